@@ -134,7 +134,7 @@ theorem le_trailing_iff (p : Val → Bool) (l : List Val) (n : Nat) :
 theorem numSum_append (a b : List Val) : numSum (a ++ b) = numSum a + numSum b := by
   induction a with
   | nil => simp [numSum]
-  | cons x a ih => cases x <;> simp [numSum, ih] <;> omega
+  | cons x a ih => simp only [List.cons_append, numSum, ih]; omega
 
 theorem recorded_snoc (vs : List Val) (v : Val) :
     recorded (vs ++ [v]) = match recorded vs with
@@ -145,11 +145,14 @@ theorem recorded_snoc (vs : List Val) (v : Val) :
 
 theorem deliveredSum_snoc (os : List Out) (o : Out) :
     deliveredSum (os ++ [o]) = deliveredSum os + match o with
-      | .deliver (.num n) => n
+      | .deliver v => v.numOf.getD 0
       | _ => 0 := by
   simp only [deliveredSum, List.filterMap_append, numSum_append]
   cases o with
-  | deliver v => cases v <;> simp [Out.value?, numSum]
+  | deliver v =>
+    have : numSum (List.filterMap Out.value? [Out.deliver v]) = v.numOf.getD 0 := by
+      simp [Out.value?, numSum]
+    rw [this]
   | skip =>
     have : numSum (List.filterMap Out.value? [Out.skip]) = 0 := rfl
     simp [this]
@@ -213,15 +216,23 @@ theorem bne_inj {α β : Type} [BEq α] [LawfulBEq α] [BEq β] [LawfulBEq β] (
   · have : f a ≠ f b := fun e => h (hf _ _ e)
     rw [bne_iff_ne.2 h, bne_iff_ne.2 this]
 
+theorem not_close_eq (a b : Int) : (!close a b) = decide (16 < 10 * (a - b).natAbs) := by
+  have := close_iff a b
+  cases h : close a b <;> simp [h] at this ⊢ <;> omega
+
 /-- the code's `_significantly_changed` is the statement's "differs" -/
 theorem changed_eq_differs (x y : Val) : changed x y = differs x y := by
-  cases x <;> cases y <;> simp only [changed, differs] <;> try (simp; done)
-  · rename_i a b
-    have := close_iff a b
-    cases h : close a b <;> simp [h] at this ⊢ <;> omega
-  · exact bne_inj Val.str (fun _ _ h => by injection h) _ _
-  · exact bne_inj Val.list (fun _ _ h => by injection h) _ _
-  · simp [bne, Bool.or_assoc]
+  cases x <;> cases y <;> simp only [changed, differs, Val.numOf] <;>
+    first
+    | exact not_close_eq _ _
+    | exact bne_inj Val.str (fun _ _ h => by injection h) _ _
+    | exact bne_inj Val.list (fun _ _ h => by injection h) _ _
+    | (simp [bne, Bool.or_assoc]; done)
+    | rfl
+
+@[simp] theorem changed_num_num (a b : Int) : changed (.num a) (.num b) = !close a b := rfl
+@[simp] theorem difference_num_num (a b : Int) : difference (.num a) (.num b) = .val (.num (b - a)) := rfl
+@[simp] theorem numOf_num (n : Int) : (Val.num n).numOf = some n := rfl
 
 theorem changed_fun (d : Val) : changed d = differs d := funext (changed_eq_differs d)
 
